@@ -345,4 +345,8 @@ void CmdRpc(const Json& cmd, JsonOut& o) {
 CommandRegistrar r_rpc("rpc", CmdRpc);
 
 }  // namespace
+
+// Entry point for other commands (threads, C19): one connection with its own pipes, bindings and handlers.
+void RunRpcCalls(const std::string& iface, const Json& calls, JsonOut& o) { RunCalls(iface, calls, o); }
+
 }  // namespace vf
